@@ -379,6 +379,20 @@ SITES["C15"] = [
          atoms={"'numbers' in state": ("hasNumbers", B)}),
 ]
 
+# identifiers ↔ numbers (C01): unknown identifiers are reported, never mapped to some row; negative numbers never index from the end
+SITES["C01"] += [
+    dict(file="data/relationships.py", cls="MatrixRelationshipSet", fn="row_table", mode="var", var="number", lean="rowNumber",
+         atoms={"number": ("number", O), "id": ("ident", O), "self.row_vocabulary.number(id, 'none')": ("looked", O)}),
+    dict(file="data/vocab.py", cls="Vocabulary", fn="number", mode="branch", select="missing == 'error'", lean="vocabNumberMissingBranch",
+         atoms={"missing == 'error'": ("missingIsError", B)}),
+    dict(file="data/vocab.py", cls="Vocabulary", fn="numbers", mode="branch", select="np.any(nums < 0)", lean="vocabNumbersErrorBranch",
+         atoms={"missing == 'error'": ("missingIsError", B), "np.any(nums < 0)": ("anyUnknown", B)}),
+    dict(file="data/vocab.py", cls="Vocabulary", fn="term", mode="branch", select="num", lean="vocabTermNegativeBranch",
+         atoms={"num": ("num", I)}),
+    dict(file="data/vocab.py", cls="Vocabulary", fn="terms", mode="branch", select="np.any(nums < 0)", lean="vocabTermsNegativeBranch",
+         atoms={"np.any(nums < 0)": ("anyNegative", B)}),
+]
+
 # the runner's decisions (C02): what a request of a finished / running node yields, when an input or a dependency is reported missing or
 # ill-typed, when a dependency is required of its source, and when a component that is not required bails out
 _RUN = dict(file="pipeline/runner.py", cls="PipelineRunner")
